@@ -15,24 +15,26 @@ theorem fixedLoop_eq (a : Auction) (bid : Bid) (L : List Bid) (tot : Int) :
     by_cases h : (b.auction : Int) = (a.id : Int) <;> simp [h]
 
 /-- ValidateBatchWorthBid = the three checks of the model's `.worth` branch -/
-theorem tie_ValidateBatchWorthBid (a : Auction) (b : Bid) (ab : Allowed) (abErr : Bool) :
-    ValidateBatchWorthBid a b ab abErr =
-      !(a.type == .batch && b.denom == a.payDenom && !abErr && !decide (b.toSelling a.payDenom > ab.cap)) := by
+theorem tie_ValidateBatchWorthBid (a : Auction) (b : Bid) (abGet : Int → Acc → Allowed × Bool) :
+    ValidateBatchWorthBid a b abGet =
+      !(a.type == .batch && b.denom == a.payDenom && !(abGet (b.auction : Int) b.bidder).2
+        && !decide (b.toSelling a.payDenom > (abGet (b.auction : Int) b.bidder).1.cap)) := by
   unfold ValidateBatchWorthBid
   cases hty : a.type <;> simp [hty, tie_ConvertToSellingAmount] <;> grind
 
-theorem tie_ValidateBatchManyBid (a : Auction) (b : Bid) (ab : Allowed) (abErr : Bool) :
-    ValidateBatchManyBid a b ab abErr =
-      !(a.type == .batch && b.denom == a.sellDenom && !abErr && !decide (b.toSelling a.payDenom > ab.cap)) := by
+theorem tie_ValidateBatchManyBid (a : Auction) (b : Bid) (abGet : Int → Acc → Allowed × Bool) :
+    ValidateBatchManyBid a b abGet =
+      !(a.type == .batch && b.denom == a.sellDenom && !(abGet (b.auction : Int) b.bidder).2
+        && !decide (b.toSelling a.payDenom > (abGet (b.auction : Int) b.bidder).1.cap)) := by
   unfold ValidateBatchManyBid
   cases hty : a.type <;> simp [hty, tie_ConvertToSellingAmount] <;> grind
 
-theorem tie_ValidateFixedPriceBid (a : Auction) (b : Bid) (L : List Bid) (ab : Allowed) (abErr : Bool) :
-    ValidateFixedPriceBid a b L ab abErr =
+theorem tie_ValidateFixedPriceBid (a : Auction) (b : Bid) (byBidder : Acc → List Bid) (abGet : Int → Acc → Allowed × Bool) :
+    ValidateFixedPriceBid a b byBidder abGet =
       !(a.type == .fixed && (b.denom == a.payDenom || b.denom == a.sellDenom) && b.price == a.startPrice
-        && !decide (a.remaining < b.toSelling a.payDenom) && !abErr
-        && !decide ((L.filter (fun x => decide ((x.auction : Int) = (a.id : Int)))).foldl (fun s x => s + x.toSelling a.payDenom) 0
-                      + b.toSelling a.payDenom > ab.cap)) := by
+        && !decide (a.remaining < b.toSelling a.payDenom) && !(abGet (b.auction : Int) b.bidder).2
+        && !decide (((byBidder b.bidder).filter (fun x => decide ((x.auction : Int) = (a.id : Int)))).foldl (fun s x => s + x.toSelling a.payDenom) 0
+                      + b.toSelling a.payDenom > (abGet (b.auction : Int) b.bidder).1.cap)) := by
   unfold ValidateFixedPriceBid
   simp only [fixedLoop_eq, tie_ConvertToSellingAmount]
   cases a.type <;> grind
